@@ -91,6 +91,10 @@ pub const RK_SIM: u64 = 0;
 pub const RK_SLICE: u64 = 1;
 pub const RK_CURSOR: u64 = 2;
 pub const RK_BUFREADER: u64 = 3;
+/// std::io::Chain of two slices, split at `bufcap % (len+1)`
+pub const RK_CHAIN: u64 = 4;
+/// SimSource wrapped in std::io::Take with limit = `bufcap` (callers pass the limit there)
+pub const RK_TAKE: u64 = 5;
 
 #[derive(Clone, Copy, Debug, Default)]
 pub struct OptSpec {
@@ -311,6 +315,39 @@ pub fn run_with_reader<W: Write>(
                 },
             )
         }
+        RK_CHAIN => {
+            use std::io::Read;
+            let cut = bufcap % (data.len() + 1);
+            let (a, b) = data.split_at(cut);
+            let mut r = a.chain(b);
+            let v = go!(&mut r);
+            let (ra, rb) = r.into_inner();
+            (
+                v,
+                ReadOutcome {
+                    consumed: data.len() - ra.len() - rb.len(),
+                    calls: 2,
+                    ..Default::default()
+                },
+            )
+        }
+        RK_TAKE => {
+            use std::io::Read;
+            let src = SimSource::new(data, src_script, src_faults);
+            let mut r = src.take(bufcap as u64);
+            let v = go!(&mut r);
+            let rep = r.get_ref().report();
+            (
+                v,
+                ReadOutcome {
+                    consumed: rep.consumed,
+                    calls: rep.calls,
+                    fired_hard: rep.fired_hard,
+                    fired_retryable: rep.fired_retryable,
+                    log: rep.log,
+                },
+            )
+        }
         RK_BUFREADER => {
             let inner = ShortReader::new(data, src_script, src_faults);
             let mut r = BufReader::with_capacity(bufcap.max(1), inner);
@@ -362,6 +399,7 @@ pub const OP_PEEK: u64 = 2; // get_output
 pub const OP_FINISH: u64 = 3;
 pub const OP_WRITE_ALL: u64 = 4; // offer everything that is left, write_all style
 pub const OP_WRITE_N: u64 = 5; // feed exactly the next arg bytes, write_all style
+pub const OP_PEEK_MUT: u64 = 6; // get_output_mut
 
 #[derive(Clone, Debug)]
 pub struct StreamEvent {
@@ -371,6 +409,8 @@ pub struct StreamEvent {
     pub result: Result<usize, String>,
     /// bytes accepted by the sink after the call
     pub sink_len: usize,
+    /// a hard sink fault fired during this call
+    pub fault_fired: bool,
 }
 
 #[derive(Clone, Debug)]
@@ -418,6 +458,7 @@ pub fn run_stream(
         let mut dead = false;
         for p in ops.chunks(2) {
             let (op, arg) = (p[0], *p.get(1).unwrap_or(&0));
+            let fired_before = st.borrow().fired_hard;
             let s = match stream.as_mut() {
                 Some(s) => s,
                 None => break,
@@ -450,6 +491,7 @@ pub fn run_stream(
                         offered: n,
                         result: ev,
                         sink_len: st.borrow().accepted.len(),
+                            fault_fired: st.borrow().fired_hard > fired_before,
                     });
                 }
                 OP_WRITE_ALL | OP_WRITE_N => {
@@ -490,6 +532,7 @@ pub fn run_stream(
                             offered: n,
                             result: ev,
                             sink_len: st.borrow().accepted.len(),
+                            fault_fired: st.borrow().fired_hard > fired_before,
                         });
                         if stop {
                             break;
@@ -503,10 +546,15 @@ pub fn run_stream(
                         offered: 0,
                         result: res.map(|_| 0).map_err(errstr),
                         sink_len: st.borrow().accepted.len(),
+                            fault_fired: st.borrow().fired_hard > fired_before,
                     });
                 }
-                OP_PEEK => {
-                    let gone = s.get_output().is_none();
+                OP_PEEK | OP_PEEK_MUT => {
+                    let gone = if op == OP_PEEK {
+                        s.get_output().is_none()
+                    } else {
+                        s.get_output_mut().is_none()
+                    };
                     if gone {
                         out.output_gone = true;
                     }
@@ -515,6 +563,7 @@ pub fn run_stream(
                         offered: 0,
                         result: Ok(if gone { 0 } else { 1 }),
                         sink_len: st.borrow().accepted.len(),
+                            fault_fired: st.borrow().fired_hard > fired_before,
                     });
                 }
                 OP_FINISH => {
@@ -529,6 +578,7 @@ pub fn run_stream(
                         offered: 0,
                         result: if v.is_ok() { Ok(0) } else { Err(v.short()) },
                         sink_len: st.borrow().accepted.len(),
+                            fault_fired: st.borrow().fired_hard > fired_before,
                     });
                     out.finish = Some(v);
                 }
